@@ -14,7 +14,7 @@ use refchess::{Color, Kind, Mv, Pos};
 use serde_json::{json, Value};
 use std::cell::RefCell;
 
-pub const RULE: &str = "(i) same position by different routes: two interleavings of commuting legal moves (a·b·c·d vs c·b·a·d / c·d·a·b / a·d·c·b), used only when the reference says the end positions are equal; the same position by FEN and by play; same four fields with different counters -> hashes must be EQUAL. (ii) single-component flips — and in a third of the cases accumulated flips of two or more components (e.g. one castling right exchanged for another) — through the public Board API (add/remove/recolour/retype one man, side to move, each castling right, ep None<->Some(s), Some(s)<->Some(t)) -> hashes must DIFFER. (iii) population: >=10^4 distinct positions per pool; within a key draw two positions share a hash iff they are the same position. (iv) ENUMERATED part 'component-pairs': for every pair of components (a man of a kind and colour on a square, one castling right, one en-passant square, the side to move; 789 components, ~300 000 pairs) two valid positions that differ in exactly those two components -> hashes must DIFFER (two components sharing a key are invisible to single flips). All under K independent ZobristTable::new() draws per worker thread (8 quick / 64 thorough). Non-trivial: (i) routes differ in >=2 visited positions, (ii) any flip, (iii) pool >= 10^4; distinct by FEN pair / (FEN, component).";
+pub const RULE: &str = "(i) same position by different routes: two interleavings of commuting legal moves (a·b·c·d vs c·b·a·d / c·d·a·b / a·d·c·b), used only when the reference says the end positions are equal; the same position by FEN and by play; same four fields with different counters -> hashes must be EQUAL. (ii) single-component flips — and in a third of the cases accumulated flips of two or more components (e.g. one castling right exchanged for another) — through the public Board API (add/remove/recolour/retype one man, side to move, each castling right, ep None<->Some(s), Some(s)<->Some(t)) -> hashes must DIFFER. (iii) population: >=10^4 distinct positions per pool; within a key draw two positions share a hash iff they are the same position. (iv) ENUMERATED part 'component-pairs': for every pair of components (a man of a kind and colour on a square, one castling right, one en-passant square, the side to move; 789 components, ~300 000 pairs) two valid positions that differ in exactly those two components -> hashes must DIFFER (two components sharing a key are invisible to single flips). (v) part 'marathon': ONE table per case, 40 000 (400 000 thorough) distinct positions with ever new pawn structures hashed on it, every seventh step an earlier one again, at the end all of them again -> each position keeps its first value. All under K independent ZobristTable::new() draws per worker thread (8 quick / 64 thorough). Non-trivial: (i) routes differ in >=2 visited positions, (ii) any flip, (iii) pool >= 10^4; distinct by FEN pair / (FEN, component).";
 
 thread_local! {
     static TABLES: RefCell<Vec<ZobristTable>> = RefCell::new(Vec::new());
@@ -567,6 +567,55 @@ fn judge_component_row(i: usize, comps: &[Comp], stats: &mut Stats) -> Verdict {
     Ok(())
 }
 
+thread_local! {
+    static MARATHON_N: std::cell::Cell<u64> = std::cell::Cell::new(40_000);
+}
+
+/// Part 'marathon' — ONE table per case (so a failure reproduces from the case alone), tens of
+/// thousands of distinct positions with ever new pawn structures hashed on it; every seventh step
+/// an EARLIER position is hashed again, and at the end all of them once more: the value a table
+/// gives for a position must not depend on what it hashed in between ("nothing else").
+fn judge_marathon(salt: u64, n: u64, stats: &mut Stats) -> Verdict {
+    let z = ZobristTable::new();
+    let mut boards: Vec<Board> = Vec::new();
+    let mut hashes: Vec<u64> = Vec::new();
+    eng::set_counter_wish(0, 1);
+    let fail = |i: usize, first: u64, later: u64, b: &Board, at: u64| {
+        Failure::new("same-position-different-hash", json!({"how": "the same position hashed again later on the same table", "fen": eng::board_to_pos(b).fen4(), "first_hash": format!("{:016x}", first), "later_hash": format!("{:016x}", later), "index_in_marathon": i, "positions_hashed_before_the_second_time": at, "replay": {"marathon_salt": format!("{:016x}", salt), "n": n}}))
+    };
+    for i in 0..n {
+        let Some(p) = crate::props::c14::marathon_position(salt, i) else { continue };
+        let b = eng::to_board(&p);
+        let h = z.hash(&b);
+        boards.push(b);
+        hashes.push(h);
+        stats.eval();
+        if i % 7 == 3 && boards.len() > 1 {
+            let j = (crate::stats::hash_of(&(salt, i)) % (boards.len() as u64 - 1)) as usize;
+            let again = z.hash(&boards[j]);
+            if again != hashes[j] {
+                return Err(fail(j, hashes[j], again, &boards[j], i));
+            }
+        }
+    }
+    for (j, b) in boards.iter().enumerate() {
+        let again = z.hash(b);
+        if again != hashes[j] {
+            return Err(fail(j, hashes[j], again, b, n));
+        }
+    }
+    stats.class("marathons_on_one_table");
+    stats.maximum("marathon_positions_hashed_on_one_table", boards.len() as i64);
+    stats.nontrivial(&(salt, n));
+    Ok(())
+}
+
+fn part_marathon(bytes: &[u8], stats: &mut Stats) -> Verdict {
+    let mut s = Src::new(bytes);
+    let salt = s.u64();
+    judge_marathon(salt, MARATHON_N.with(|c| c.get()), stats)
+}
+
 pub fn run(tier: Tier, seed: u64, known: &Known) -> PropRun {
     let mut run = PropRun::new("exploration", RULE);
     run.assumptions = vec![
@@ -581,6 +630,21 @@ pub fn run(tier: Tier, seed: u64, known: &Known) -> PropRun {
         ("flips", tier.pick(80_000, 500_000), 260, part_flips),
         ("pool", tier.pick(16, 160), 60_000, part_pool),
     ];
+    // first the part that gives every case its own table (what a table keeps between calls is
+    // found there reproducibly; the later parts share tables between cases)
+    {
+        let n = tier.pick(40_000u64, 400_000u64);
+        let part = Part { name: "marathon", cases: tier.pick(16, 64), min_len: 8, max_len: 16, max_shrink: 4, threads: threads() };
+        let (st, fail) = run_part(&part, seed, known, |b, st| {
+            MARATHON_N.with(|c| c.set(n));
+            part_marathon(b, st)
+        });
+        run.stats.merge(st);
+        if fail.is_some() {
+            run.failure = fail;
+            return run;
+        }
+    }
     // enumerated part first: every pair of components
     {
         let comps = all_components();
@@ -667,6 +731,14 @@ pub fn replay(part: &str, bytes: &[u8], case: &Value, stats: &mut Stats) -> Verd
             }
             return Ok(());
         }
+    }
+    if let Some(m) = case.get("replay").and_then(|r| r.get("marathon_salt")).and_then(|x| x.as_str()) {
+        let salt = u64::from_str_radix(m, 16).unwrap_or(0);
+        let n = case.get("replay").and_then(|r| r.get("n")).and_then(|x| x.as_u64()).unwrap_or(40_000);
+        return judge_marathon(salt, n, stats);
+    }
+    if part == "marathon" {
+        return part_marathon(bytes, stats);
     }
     if part == "routes" {
         if let Some(v) = replay_routes(case) {
